@@ -19,6 +19,7 @@ type core struct {
 	// viaBatch: pre-state content is written through the store's ONE long-lived batch object (queue, Write,
 	// Reset) instead of direct Put/Delete, so that whatever the batch keeps after Reset is in play afterwards
 	viaBatch bool
+	stats    *Stats // coverage counters of the adapter (vacuity guards only)
 }
 
 // opsConsistent: does every key named by the batch hold, in `content`, the value of the last operation naming it?
@@ -87,7 +88,24 @@ func (c *core) setVia(want [][2]string) error {
 
 func (c *core) ensureBatch() {
 	if c.batch == nil {
-		c.batch = c.st.NewBatch()
+		if c.stats == nil {
+			c.stats = &Stats{}
+		}
+		c.batch = &trackedBatch{Batch: c.st.NewBatch(), st: c.stats}
+	}
+}
+
+// noteFlushed: the store's overlay has been flushed or dropped (coverage bookkeeping only)
+func (c *core) noteFlushed() {
+	if tb, ok := c.batch.(*trackedBatch); ok {
+		tb.flushed()
+	}
+}
+
+// noteRead: the whole store has just been projected (coverage bookkeeping only)
+func (c *core) noteRead() {
+	if tb, ok := c.batch.(*trackedBatch); ok && tb.reusedUnflushed {
+		c.stats.ReadsAfterReuseUnflushed++
 	}
 }
 
@@ -296,6 +314,7 @@ func (in *kvInst) Project() interface{} {
 func KVAdapter(env *Env, backend, layers string) replay.Adapter {
 	name := backend + ":" + layers
 	raw := env.newRaw(backend, name)
+	stats := env.newStats(name)
 	n := 0
 	return replay.Adapter{Name: name, New: func(pre interface{}) (replay.Inst, error) {
 		db, err := raw.get()
@@ -307,7 +326,7 @@ func KVAdapter(env *Env, backend, layers string) replay.Adapter {
 		if err != nil {
 			return nil, err
 		}
-		in := &kvInst{core: core{env: env, st: st.top, tick: st.tick, replayTo: st.replayTo, viaBatch: n%2 == 0}}
+		in := &kvInst{core: core{env: env, st: st.top, tick: st.tick, replayTo: st.replayTo, viaBatch: n%2 == 0, stats: stats}}
 		if err := in.build(obj(pre)); err != nil {
 			return nil, fmt.Errorf("cannot establish pre-state: %v", err)
 		}
